@@ -12,6 +12,7 @@ CONSTANTS
     MaxReaps = 1
     ResumeScripts = {"noop", "close"}
     OpenScripts = {"open"}
+    Routes = {"unary", "pinit"}
     Toks = {"own", "bad"}
     Lags = {0}
     AadBinds = TRUE
